@@ -101,6 +101,7 @@ class GroundedPrecondition:
                     precondition.inequality_preconditions, parameters_map
                 )
                 self._ground(precondition, grounded_condition, parameters_map)
+                grounded_conditions.add_condition(grounded_condition)
 
             else:
                 raise ValueError(
@@ -114,11 +115,14 @@ class GroundedPrecondition:
         :param preconditions: the preconditions to validate.
         :return: whether the equality preconditions hold.
         """
-        return all(
-            [obj1 == obj2 for obj1, obj2 in preconditions.equality_preconditions]
-        ) and all(
-            [obj1 != obj2 for obj1, obj2 in preconditions.inequality_preconditions]
-        )
+        equality_results = [
+            obj1 == obj2 for obj1, obj2 in preconditions.equality_preconditions
+        ] + [obj1 != obj2 for obj1, obj2 in preconditions.inequality_preconditions]
+        if preconditions.binary_operator == "or":
+            # the neutral element of a disjunction is False
+            return any(equality_results)
+
+        return all(equality_results)
 
     def _validate_numeric_expression_hold(
         self,
